@@ -202,13 +202,11 @@ func (p *parseAll) OnWriteExecutionEvent(_ service.Message)      {}
 func (p *parseAll) OnReadExecutionEvent(msg *service.Message) {
 	// Parsing into the handler's own (per-connection) model object from the read callback races with the
 	// writer goroutine's ReplyBody for 0x0102/0x0801/0x1212, which parse into the same object. That sharing is
-	// the callback author's choice (example/protocol/camera does it), so under the race detector the
-	// callback only uses the README's main pattern: a fresh model value per message.
-	if !raceEnabled {
-		if p.inner.Parse(msg.JTMessage) == nil {
-			_ = p.inner.String()
-		}
-	}
+	// the callback author's choice (example/protocol/camera does it), so the callback
+	// only uses the README's main pattern: a fresh model value per message.
+	// (Until the writer was made to lag behind the reader - write_hold_us in C06 - this ran in builds without the race
+	// detector as well; the first thorough run with a lagging writer then showed a reply computed from a later message:
+	// the callback's own race, not the library's. The callback never touches the shared object any more.)
 	f := p.fresh()
 	if f.Parse(msg.JTMessage) == nil {
 		_ = f.String()
